@@ -42,6 +42,12 @@ SetOne == \A xy \in Pix :
 FromBytes == \A len \in {0, TotalBytes(w, h) - 16, TotalBytes(w, h) - 1, TotalBytes(w, h), TotalBytes(w, h) + 1, TotalBytes(w, h) + 15, TotalBytes(w, h) + 16, DataBytes(w, h)} :
                 len >= 0 => (FromBytesOk(w, h, len) = (len = TotalBytes(w, h)))
 
+\* the definitions the TLAPS proof (spec/proofs/PixelIndex.tla: injectivity, range and padding for ALL sizes) speaks about
+\* are the ones used here
+PI == INSTANCE PixelIndex
+SameDefs == /\ PI!BPC(h) = BytesPerColumn(h) /\ PI!DataBytes(w, h) = DataBytes(w, h) /\ PI!TotalBytes(w, h) = TotalBytes(w, h)
+            /\ \A xy \in Pix : PI!ByteIndex(h, xy[1], xy[2]) = ByteIndex(h, xy[1], xy[2]) /\ PI!BitIndex(xy[2]) = BitIndex(xy[2])
+
 \* mode G: for a subset of sizes (all of them would be large), the fresh image and each single-pixel image's changed byte
 EmitThis == w <= (IF Thorough THEN 24 ELSE 9) \/ wh \in RealSizes
 EmitVec == (Emit /\ EmitThis) =>
